@@ -27,6 +27,7 @@
 (*  signed request accepted under the key the host then regards as latched).*)
 (***************************************************************************)
 EXTENDS KeyKeeper, Json, IOUtils
+ZeroInc(g) == 0
 FModeOf(r) == "audit"
 
 Rec == ndJsonDeserialize(IOEnv.TRACE)
